@@ -220,6 +220,31 @@ def displaceEntries (width : Nat) (disp : Int) : Nat → Bytes → PureRes Bytes
         | .err e => .err e
         | .panic s => .panic s
 
+/-- the same function without the linear-time `length` test per entry (what the compiled driver runs: a table of
+    65536 entries otherwise costs 2^34 list steps); proved equal below, so nothing is trusted -/
+def displaceEntriesFast (width : Nat) (disp : Int) : Nat → Bytes → PureRes Bytes
+  | 0, bs => .ok bs
+  | fuel + 1, bs =>
+    if width = 0 ∨ (bs.take width).length < width then .ok bs
+    else
+      let v : Int := beToNat (bs.take width)
+      let v' := v + disp
+      if v' < 0 ∨ v' ≥ (256 : Int) ^ width then .err .invalidInput
+      else
+        match displaceEntriesFast width disp fuel (bs.drop width) with
+        | .ok rest => .ok (natToBE width v'.toNat ++ rest)
+        | .err e => .err e
+        | .panic s => .panic s
+
+@[csimp] theorem displaceEntries_eq_fast : @displaceEntries = @displaceEntriesFast := by
+  funext width disp fuel bs
+  induction fuel generalizing bs with
+  | zero => rfl
+  | succ n ih =>
+    have e : ((bs.take width).length < width) = (bs.length < width) := by
+      rw [List.length_take]; apply propext; omega
+    simp only [displaceEntries, displaceEntriesFast, ih, e]
+
 def displaceCo (disp : Int) (c : Co) : PureRes (Co × Unit) :=
   match displaceEntries c.width disp c.entries.length c.entries with
   | .ok e => .ok ({ c with entries := e }, ())
